@@ -1,5 +1,5 @@
 """C02 -- causal monotone time: clock never goes back, record arithmetic consistent."""
-from ..sysprop import system_subcheck
+from ..sysprop import system_subcheck, fuzz_subcheck
 from ..monitors.timeflow import TimeFlow
 from . import common
 
@@ -27,5 +27,6 @@ def subchecks(tier):
     prof = common.full_profile(allowed=common.FULL + ["exact"])
     prof.weights["exact"] = 0.1
     prof.excluded = tuple(prof.excluded) + ("exact_low_precision",)
-    return [system_subcheck("lattice", prof, lambda spec: [TimeFlow()], nontrivial, classes=classes,
-                            n={"quick": 12000, "thorough": 60000}, rule="full lattice; clock + record monitor after every event")]
+    base = system_subcheck("lattice", prof, lambda spec: [TimeFlow()], nontrivial, classes=classes,
+                            n={"quick": 12000, "thorough": 60000}, rule="full lattice; clock + record monitor after every event")
+    return [base, fuzz_subcheck(base, tier)]
